@@ -149,7 +149,7 @@ class Func:
     def __init__(s): s.blocks={}; s.order=[]; s.params=[]
 class Module:
     def __init__(s,path):
-        s.types={}; s.funcs={}; s.globals={}; s.aliases={}; s.tp=TypeParser(s)
+        s.types={}; s.funcs={}; s.globals={}; s.aliases={}; s.decls=set(); s.tp=TypeParser(s)
         lines=open(path).read().split('\n'); i=0
         while i<len(lines):
             l=lines[i]
@@ -161,6 +161,9 @@ class Module:
                 ma=re.search(r'\balias\b.*@("[^"]*"|[\w.$-]+)\s*$',m.group(2))
                 if ma: s.aliases[m.group(1).strip('"')]=ma.group(1).strip('"')
                 else: s.globals[m.group(1).strip('"')]=m.group(2)
+            elif l.startswith('declare'):
+                md=re.search(r'@("[^"]*"|[\w.$-]+)\(',l)
+                if md: s.decls.add(md.group(1).strip('"'))
             elif l.startswith('define'):
                 m=re.search(r'@("[^"]*"|[\w.$-]+)\((.*)\)[^()]*\{\s*$',l); f=Func(); f.name=m.group(1).strip('"'); f.sig=l
                 # params: positional %0.. ; count them by splitting top-level commas
@@ -217,6 +220,9 @@ def _find(mod,name):
     if 'randomx_'+name in mod.funcs: return 'randomx_'+name
     c=[f for f in mod.funcs if f.endswith(name)]
     if len(c)==1: return c[0]
+    if not c:      # external of this unit (hooked by the harness): declared name
+        for n in (name,'randomx_'+name):
+            if n in mod.decls: return n
     raise Unbound('function %s not found in IR (%d candidates)'%(name,len(c)))
 Module.find=_find
 
